@@ -609,6 +609,15 @@ func TestC08(t *testing.T) {
 		if v := c08Judge(c, res); v != "" {
 			rt.Fatalf("C08 violated by %v: %s\noutcome: %v", c, v, res)
 		}
+		if rapid.IntRange(0, 5).Draw(rt, "reuseInstance") == 0 {
+			forceOp = c.op
+			other := c08Gen(rt)
+			forceOp = ""
+			ev.Class("C08", "instance-reused")
+			if d := reuseDifferential(c.op, c.node, other.inputs(), c.inputs()); d != "" {
+				rt.Fatalf("C08 violated by %v after the same operator instance served %v: %s", c, other, d)
+			}
+		}
 		if _, enc := onnxTypeOf[c.ins[0].Dtype()]; enc && rapid.IntRange(0, 4).Draw(rt, "modelLevel") == 0 {
 			mres := runSingleNodeModel(c.node, c.inputs(), 1)
 			ev.Class("C08", "model-level")
